@@ -8,20 +8,21 @@ STAGEGLUE_RULE = (
     "(the first leaf deleted, a run of deleted leaves behind it — also with an untouched leaf inside the run —, then nothing / the candidate rewritten / a new leaf in front of or behind the candidate / "
     "a later leaf deleted or rewritten; malformed changesets) vs the mirror `enforceFirst`; (2) `fl` / `fb` lines = the REAL filter_leaves_changeset / filter_branch_changeset on shuffled lists with 1..3 equal keys in every "
     "Some/None pattern (both `assert!`s and the `len() - 1` of the branch twin are `panic` on both sides) vs `filterCs`; (3) `update` lines = the REAL ops::update (one worker) end to end on a caller-supplied tree "
-    "(1..8 leaves built with the real LeafBuilder, a random half of them in the leaf cache and the others only in the store file, indexed by real branch nodes, 2..4 leaves per node), 2..3 rounds per case, "
-    "round k+1 on the tree the real code produced in round k: the leaf changeset handed to the branch stage, the pages either stage releases in order, the submitted I/Os, the new index node by node "
+    "(1..8 leaves built with the real LeafBuilder, a random half of them in the leaf cache and the others only in the store file, indexed by real branch nodes, 2..4 leaves per node), 2..4 rounds per case, "
+    "round k+1 on the tree the real code produced in round k and on the STORES it left (both stores reopened with the real Store::open from the SyncData of round k: allocation frontier + free-list head, "
+    "FreeList::read from the file — pages released in round k are handed out again in round k+1; the mirror carries Store/FreeListModel.lean's state across rounds and predicts every page number): the leaf changeset handed to the branch stage, the pages either stage releases in order, the submitted I/Os, the new index node by node "
     "(page number, prefix_len, prefix_compressed, every separator with its page number and stored length), every leaf the new index points to (page number, every entry with its cell length, overflow flag and the pages "
-    "`overflow::delete` frees for it) and the leaves PostIoWork put into the leaf cache, vs the mirror `update`. Batches: per-leaf shapes (untouched, emptied, head / tail deleted, one update, bulk insert -> split, "
+    "`overflow::delete` frees for it), the leaves PostIoWork put into the leaf cache and SyncData (ln_bump, ln free-list head, bbn_bump, bbn free-list head), vs the mirror `update` + `FreeList.finish`. Batches: per-leaf shapes (untouched, emptied, head / tail deleted, one update, bulk insert -> split, "
     "overflow inserts incl. > 15 pages, an inline value turning into an overflow value in a leaf that splits, overflow values deleted / overwritten, deletes of absent keys) and 7 directed families per shard "
     "(first leaf emptied; leaf 0 emptied + leaf 1 untouched + leaf 2 emptied; the first k leaves emptied; the whole tree emptied, refilled, emptied; batches changing no leaf, also on the empty tree; the empty batch; "
     "first leaf emptied + the candidate rewritten / under-full). Oracles independent of the model: content = BTreeMap fold, every key read back through the real lookup path incl. overflow::read_blocking (C01); "
     "first separator = zero key, index keys = first separators of the branch nodes, separators ascending, every key inside its leaf's range, no empty leaf / node (C16); every old page (leaf, overflow, branch node) "
-    "not referenced by the new tree released exactly once, no referenced page released, nothing twice, every allocated page referenced / released / a free-list page (C19); every new leaf in the leaf cache after "
+    "not referenced by the new tree released exactly once, no referenced page released, nothing twice, every new page allocated at the frontier or taken from the pages released in EARLIER rounds — never one released in the same round —, every allocated page referenced / released / a free-list page (C19); every new leaf in the leaf cache after "
     "PostIoWork and equal to the page on disk (C10); the same batch with 2 and 3 workers gives the same content and passes the same oracles (C13); enforce_first_leaf_separator keeps the sequence of leaves and the order "
     "of the changeset; filter_*_changeset = the specification under the producer invariant; no panic."
 )
 _TB = ["the node updaters (`digest` / `ingest`) are the existing mirrors of Q12 / the leaf-updater unit; `indexed_leaf` is mirrored on the flattened leaf level (the two-level lookup is Q32's unit; the `enf` lines go through a real two-level index)",
-       "page numbers of new pages: the k-th `allocate()` of the sync returns `bump + k` (hook: both stores are opened with an empty free list); the free-list part of `SyncData` is the free-list unit's (`alloc-freelist`)"]
+       "page numbers of new pages: `FreeList.allocate` / `finish` of Store/FreeListModel.lean (the free-list unit's mirror, T19.1-T19.4) predict them from round to round; the theorems of this unit take the allocator as a parameter (`lnFresh`, `bbnFresh`)"]
 EXTRA = {
     "C01": {"runs": [STAGEGLUE_RUN], "rule": STAGEGLUE_RULE, "trusted_base": _TB},
     "C19": {"runs": [STAGEGLUE_RUN], "rule": STAGEGLUE_RULE, "trusted_base": _TB},
